@@ -641,7 +641,7 @@ evaluated by the C09 driver on the table of every run, so `order_discipline` is 
 def pinnedOrder : List (String × String × String) := [
   ("Topology._disconnect_interfaces", "loop{loop{v if{if{v w(disconnect_interface)|v}|}}}",
     "detachAll_spec (under DetachHyp); outside it: removeNode_multipeer_counterexample"),
-  ("Topology.remove_node", "if{v|} w(_disconnect_interfaces) v w(remove_network_node_with_components_nss_cps_and_links)",
+  ("Topology.remove_node", "if{v|} v w(_disconnect_interfaces) w(remove_network_node_with_components_nss_cps_and_links)",
     "atomic_removeNode"),
   ("Topology.add_facility", "w(add_node) guarded{w(add_network_service) if{w(add_interface)|loop{w(add_interface)}}|w(remove_network_node_with_components_nss_cps_and_links) v} ret",
     "atomic_addFacility (removeNodeGraph_fac)"),
